@@ -469,7 +469,7 @@ func c18Plumbing(p *core.Prog, r *core.Report) {
 		ok := false
 		pos := p.Pos(f.Pos())
 		for _, g := range core.WithAnon(f) {
-			for _, c := range core.CallsIn(g, "thrift.Context.SetResponseHeaders", "ContextWithHeaders.SetResponseHeaders") {
+			for _, c := range core.CallsIn(g, "ContextWithHeaders.SetResponseHeaders") {
 				pos = p.Pos(c.Pos())
 				if derives(p, core.CallArgs(c)[1], isReadHeaders, through, 0, seen()) {
 					ok = true
